@@ -25,9 +25,9 @@ type G struct {
 }
 
 type Sched struct {
-	gs   []*G
-	cur  *G
-	back chan struct{}
+	gs    []*G
+	cur   *G
+	back  chan struct{}
 	fatal interface{} // pathAbort raised inside a coroutine
 }
 
@@ -37,12 +37,12 @@ type outcome struct {
 }
 
 type ChanObj struct {
-	Buf    []Value
-	Cap    int
-	Closed bool
-	sendq  []*sendItem
+	Buf         []Value
+	Cap         int
+	Closed      bool
+	sendq       []*sendItem
 	recvWaiting int
-	id     int
+	id          int
 }
 
 type sendItem struct {
